@@ -49,6 +49,7 @@ def run(P, R, tier, cfg):
         _bounded(P, R, L)
         _counters(P, R, L)
         _fixpoint(P, R, L)
+        _pass_state_fresh(P, R, L)
     _callees(P, R, fls)
 
 
@@ -347,6 +348,21 @@ def _fixpoint(P, R, L):
         R.hold("d", "%s: a pass visits every index of the salience vector (the rule loop ends only by exhaustion or error)" % fn.short_name, fn=fn)
     else:
         R.violate("d", "rule-loop-exit:%s:%s" % (fn.name, ",".join(sorted(outs))), "%s: the rule loop can end early without an error (%s): a pass that fired nothing may not have evaluated every eligible rule, so stopping is not a fixpoint" % (fn.short_name, outs), fn)
+
+
+def _pass_state_fresh(P, R, L):
+    """d'. A pass that fires nothing is only a fixpoint if no rule was skipped because of state left over from an earlier
+    pass or an earlier (possibly failed) execute: the per-pass activation-group marks must be cleared before the rule loop of
+    every pass - at the top of the cycle, not at its end, because an Err return leaves a pass in the middle."""
+    fn = L.fn
+    AGR = "engine::agenda::ActivationGroupManager::reset_cycle"
+    rc = [c for c in fn.calls() if c.resolved == AGR and c.bb in L.outer["body"] and c.bb not in L.inner["body"]]
+    before = [c for c in rc if fn.dominates(c.bb, L.inner["header"])]
+    if before:
+        R.hold("d", "%s: activation-group marks are cleared before the rule loop of every pass" % fn.short_name, fn=fn, line=before[0].line)
+    else:
+        R.violate("d", "stale-pass-state:%s" % fn.name,
+                  "%s does not clear the activation-group marks ahead of each pass's rule loop (%d reset_cycle calls in the cycle body, none dominating the rule loop): after an execute that returned Err mid-pass, the next execute skips every rule of the group that had fired and can stop with an eligible true rule unfired" % (fn.short_name, len(rc)), fn)
 
 
 def _callees(P, R, fls):
